@@ -311,3 +311,56 @@ func ExactNil(b []byte) []byte {
 	}
 	return Exact(b)
 }
+
+// BlockMsg builds a message out of nblocks blocks of bs octets, each all-zero, all-ones, a single high or low
+// bit, a repeat of the previous block, or random; plus tail extra random octets.  Block ciphers, polynomial
+// MACs and word-oriented stream ciphers have their special cases on such inputs (a zero block that must
+// still be multiplied in, equal blocks that cancel), which uniformly random octets never produce.
+func BlockMsg(r *Rng, bs, nblocks, tail int) []byte {
+	out := make([]byte, 0, bs*nblocks+tail)
+	for i := 0; i < nblocks; i++ {
+		b := make([]byte, bs)
+		switch r.Intn(7) {
+		case 0, 1: // zero
+		case 2:
+			for j := range b {
+				b[j] = 0xff
+			}
+		case 3:
+			b[0] = 0x80
+		case 4:
+			b[bs-1] = 0x01
+		case 5:
+			if i > 0 {
+				copy(b, out[len(out)-bs:])
+			} else {
+				b = r.Bytes(bs)
+			}
+		default:
+			b = r.Bytes(bs)
+		}
+		out = append(out, b...)
+	}
+	return append(out, r.Bytes(tail)...)
+}
+
+// BeyondLen runs f on a copy of b that is a prefix view of a larger array (spare capacity 24, filled with a
+// sentinel) and reports whether f wrote into the array beyond len(b): a caller that hands over buf[:n] still
+// owns buf[n:].  A nil b stays nil.  Panics inside f are swallowed (the main call reports them).
+func BeyondLen(b []byte, f func(w []byte)) (wrote bool) {
+	if b == nil {
+		return false
+	}
+	big := make([]byte, len(b)+24)
+	copy(big, b)
+	for i := len(b); i < len(big); i++ {
+		big[i] = 0xa5
+	}
+	Catch(func() { f(big[:len(b)]) })
+	for i := len(b); i < len(big); i++ {
+		if big[i] != 0xa5 {
+			return true
+		}
+	}
+	return false
+}
